@@ -1074,6 +1074,11 @@ func unwrapDelegation(fn *ssa.Function) *ssa.Function {
 			if len(rs) != 2 {
 				return fn
 			}
+			// `return h(...)`: both results handed on as they are
+			if ex0, ok0 := rs[0].(*ssa.Extract); ok0 && ex0.Tuple == ssa.Value(call) && ex0.Index == 0 && rs[1] == errv {
+				nSucc++
+				continue
+			}
 			if flow.KnownNonNilError(rs[1], ret.Block()) || rs[1] == errv {
 				// failure return: no program
 				if k, isConst := rs[0].(*ssa.Const); !isConst || k.Value != nil {
